@@ -283,6 +283,17 @@ def run(ctx):
                 "RATE_SELECT": 0x48, "IECO": 0xE3}
     for nme, v in want_ids.items():
         ctx.ob("C16.c", PID, ids.get(nme) == v, f"PropertyId.{nme} = 0x{v:04X}", func=PID, file=pid.module.rel, construct=f"PropertyId.{nme}", fail=f"PropertyId.{nme} is {ids.get(nme)}")
+    # the value written under BREEZE_CONTROL is the BreezeMode member itself: its numbering is the vendor's
+    # (Lua: checkBoundary(streams[KEY_FA_NO_WIND_SENSE], 1, 4); report decode 1 = neither, 2 = prevent straight wind, 3 = gentle wind, 4 = no wind sense)
+    import re as _re
+    mb = _re.search(r'checkBoundary\(streams\[keyT\["KEY_FA_NO_WIND_SENSE"\]\],\s*(\d+),\s*(\d+)\)', lua)
+    ctx.ob("C16.ref", "reference", mb is not None and (int(mb.group(1)), int(mb.group(2))) == (1, 4), "vendor Lua bounds the breeze-control value to 1..4", func="reference",
+           file="reference", construct="Lua fa_no_wind_sense bounds", fail="the vendor Lua no longer bounds fa_no_wind_sense to 1..4 (reference drifted)")
+    bmc = prog.cls(f"{AC}.BreezeMode")
+    bm = {k: v for k, v in prog.enum_members(bmc).items() if k != "DEFAULT"}
+    want_bm = {"OFF": 1, "BREEZE_AWAY": 2, "BREEZE_MILD": 3, "BREEZELESS": 4}
+    ctx.ob("C16.c", bmc.qual, bm == want_bm, "BreezeMode members carry the vendor's values (off 1, away 2, mild 3, breezeless 4)", func=bmc.qual, file=bmc.module.rel,
+           construct="BreezeMode values", detail={"members": bm}, fail=f"BreezeMode values {bm} differ from the vendor encoding {want_bm}: the value written under BREEZE_CONTROL is the member's value")
     en = ctx.fn(f"{PID}.encode")
     ens = summarize(prog, en)
     self_e = en.params[0]
